@@ -1246,6 +1246,31 @@ func c02Text(r *core.Report) {
 		if n == 0 {
 			core.Fail("resolveRefPath no longer assigns a Fragment")
 		}
+		// the fragment of an external reference goes on as reference text and is parsed again by
+		// resolveComponent: it must keep its percent escapes until then
+		rd := p.DeclOf("openapi3", "Loader.resolveRef")
+		k := 0
+		ast.Inspect(rd.Body, func(nd ast.Node) bool {
+			be, ok := nd.(*ast.BinaryExpr)
+			if !ok || be.Op != token.ADD {
+				return true
+			}
+			if sv, isStr := core.ConstStr(info, be.X); !isStr || sv != "#" {
+				return true
+			}
+			k++
+			good := false
+			if c, ok := ast.Unparen(be.Y).(*ast.CallExpr); ok {
+				if sel, ok := ast.Unparen(c.Fun).(*ast.SelectorExpr); ok && sel.Sel.Name == "EscapedFragment" {
+					good = true
+				}
+			}
+			r.Check(good, fmt.Sprintf("fragment:resolveRef#%d", k), p.Pos(be.Pos()), "the escaped form of the fragment is handed on", "resolveRef rebuilds the reference text from the decoded fragment ("+core.ExprStr(be.Y)+"), and resolveComponent decodes it again: `other.yaml#/components/schemas/a%2541` resolves to the component `aA` instead of `a%41`")
+			return true
+		})
+		if k == 0 {
+			core.Fail("resolveRef no longer rebuilds \"#\" + fragment")
+		}
 	})
 	r.RunRule("C02.doccache", "the document cache designates documents by their whole location and holds loaded documents only: in the Loader method that registers a document in the map of visited documents, the key of every access to that map is the String() of the function's *url.URL parameter (a key rebuilt from some components makes two locations share one document), and every return of an error that comes after the registration is preceded in its block by a delete of that key (a document that failed to parse or to resolve would otherwise be handed out, half built and with a nil error, by the next load of the location)", 3, func() {
 		docT := p.NamedType("openapi3", "T")
